@@ -158,7 +158,7 @@ func (d *Daemon) Start(timeout time.Duration, env ...string) error {
 	for time.Now().Before(deadline) {
 		select {
 		case <-ex:
-			return ErrDied
+			return d.diedError()
 		default:
 		}
 		c, err := net.DialTimeout("unix", d.Sock, time.Second)
@@ -178,6 +178,43 @@ func (d *Daemon) Start(timeout time.Duration, env ...string) error {
 
 // ErrDied reports that the daemon process exited while we were waiting for something else.
 var ErrDied = errors.New("daemon process died")
+
+// StartDied is what Start returns when the process exits before its control socket answers: errors.Is(err, ErrDied)
+// holds, and the exit status and the end of the process's own output say why (a verdict must never rest on
+// "it died" alone: a listener port taken by somebody else and a crash look the same from outside).
+type StartDied struct {
+	Exit string
+	Log  string
+}
+
+func (e *StartDied) Error() string {
+	return fmt.Sprintf("%v (%s; last output: %q)", ErrDied, e.Exit, e.Log)
+}
+
+func (e *StartDied) Unwrap() error { return ErrDied }
+
+// PortTaken: the process gave up because an address it was told to listen on was in use.
+func (e *StartDied) PortTaken() bool { return strings.Contains(e.Log, "address already in use") }
+
+func (d *Daemon) diedError() error {
+	d.mu.Lock()
+	ex := "exit status unknown"
+	if d.exitErr != nil {
+		ex = d.exitErr.Error()
+	} else {
+		ex = "exit status 0"
+	}
+	d.mu.Unlock()
+	b, _ := os.ReadFile(filepath.Join(d.Dir, "daemon.log"))
+	if i := bytes.LastIndex(b, []byte("---- start #")); i >= 0 {
+		b = b[i:]
+	}
+	if len(b) > 1500 {
+		b = b[len(b)-1500:]
+	}
+
+	return &StartDied{Exit: ex, Log: string(b)}
+}
 
 // Pid of the running process (0 if none).
 func (d *Daemon) Pid() int {
